@@ -914,7 +914,20 @@ class Fn:
             v = self.promoted_value(op["promoted"])
             if v is not None:
                 return v
-        return op.get("val")
+        v = op.get("val")
+        # a named constant item (`const REASON: &str = "Drained"`): read its value from its own body
+        if isinstance(v, str) and self.db is not None and re.fullmatch(r"[A-Za-z_][\w:<>, ]*", v) and "::" in v:
+            g = self.db.fns.get(v)
+            if g is not None and g.kind == "const" and g.id != self.id:
+                vals = []
+                for r in g.origins([0, []]):
+                    if r["k"] == "const":
+                        vals.append(g.const_repr(r["op"]))
+                    else:
+                        vals.append(None)
+                if len(vals) == 1 and vals[0] is not None:
+                    return vals[0]
+        return v
     def value_consts(self, op_or_place, through=None):
         """all constant renderings a value may originate from"""
         out = []
